@@ -66,6 +66,12 @@ func (mem *Mempool) checkExpireValid(tx *types.Transaction) bool {
 // CheckTx 初步检查并筛选交易消息
 func (mem *Mempool) checkTx(msg *queue.Message) *queue.Message {
 	tx := msg.GetData().(types.TxGroup).Tx()
+	// tx.From() is evaluated below on a transaction whose signature is not verified yet, and panics when the
+	// signature type names an address driver that does not exist
+	if _, err := address.LoadDriver(types.ExtractAddressID(tx.GetSignature().GetTy()), -1); err != nil {
+		msg.Data = types.ErrSign
+		return msg
+	}
 	// 检查接收地址是否合法
 	if err := address.CheckAddress(tx.To, atomic.LoadInt64(&mem.currHeight)); err != nil {
 		msg.Data = types.ErrInvalidAddress
